@@ -299,6 +299,14 @@ def vary(key, g, toks, p_pad=0.2, p_pre=0.15, p_desc=0.1):
         v['pad_before'], v['pad_after'] = extra[:nb], extra[nb:]
     elif x < p_pad + p_pre:
         v['pre'] = list(toks)
+        if toks and r.random() < 0.5:
+            # the earlier parse is of another input: the last token dropped, or one token replaced by another declared code
+            # (mostly a non-sentence: the object has been through a rejected or repaired parse before)
+            if r.random() < 0.5:
+                v['pre'] = list(toks[:-1])
+            else:
+                k = r.randrange(len(toks))
+                v['pre'] = list(toks[:k]) + [r.choice([c for n, c in g['terms']])] + list(toks[k + 1:])
         if r.random() < 0.6:
             v['pre_cfg'] = {kk: r.choice(vals) for kk, vals in (('la', [0, 1, 2]), ('one', [0, 1]), ('cost', [0, 1]), ('rec', [0, 1])) if r.random() < 0.5}
     elif x < p_pad + p_pre + p_desc:
